@@ -61,7 +61,8 @@ func c02Build(ssa bool) *c02World {
 	}
 	boot = false
 	ver = "2"
-	w.Sim.Edit(kit.Leaf, "n1", "e", func(o map[string]interface{}) { delete(o["metadata"].(map[string]interface{}), "ownerReferences") })
+	// e: nobody controls it any more; it still lists the parent as a plain (non-controller) owner
+	w.Sim.Edit(kit.Leaf, "n1", "e", func(o map[string]interface{}) { kit.Owners(o, kit.OwnerRef(kit.Thing, "p", "puid", false)) })
 	w.Sim.Edit(kit.Leaf, "n1", "g", func(o map[string]interface{}) { kit.Labels(o, "app", "y") })
 	// bystanders that must never be written
 	q := kit.Obj(kit.Thing, "n1", "q")
@@ -142,6 +143,28 @@ func (x *c02World) judge(log []*sim.Request, actorUID func(r *sim.Request) strin
 					}
 					if r.Kind != world.RevisionKind && kit.Str(r.Body, "propagationPolicy") != "Background" {
 						bad("delete-propagation", "%s: propagation %q", r, kit.Str(r.Body, "propagationPolicy"))
+					}
+				}
+				// An update of a child we control keeps it ours - the only write that gives a child up is the release
+				// of one that stopped matching the selector - and keeps the owner references of others.
+				if r.Post != nil && r.Verb != "delete" {
+					if kit.ControllerUID(r.Post) != me && matches(r.Pre) {
+						bad("own-child-orphaned", "%s removed the parent's controller reference from a child that still matches the selector (owner references now %v)", r, kit.Get(r.Post, "metadata", "ownerReferences"))
+					}
+					for _, ref := range kit.List(r.Pre, "metadata", "ownerReferences") {
+						uid := kit.Str(ref, "uid")
+						if uid == me {
+							continue
+						}
+						kept := false
+						for _, after := range kit.List(r.Post, "metadata", "ownerReferences") {
+							if kit.Str(after, "uid") == uid {
+								kept = true
+							}
+						}
+						if !kept {
+							bad("foreign-reference-dropped", "%s dropped the owner reference to %v", r, kit.Get(ref, "name"))
+						}
 					}
 				}
 				continue
